@@ -56,6 +56,33 @@ func sanitisedIn(c *Ctx, pa *provAnalysis, fns []*ssa.Function, comp string) boo
 	return found
 }
 
+// sanitisedOnly: every '-' -> '_' replacement in the functions is applied to
+// a value derived from the given component alone (the version proper and the
+// metadata are used verbatim).
+func sanitisedOnly(c *Ctx, pa *provAnalysis, fns []*ssa.Function, comp string) (bool, string) {
+	for _, fn := range fns {
+		bad := ""
+		forEachInstr(fn, func(in ssa.Instruction) {
+			call, ok := in.(*ssa.Call)
+			if !ok || !calleeIs(call, "strings", "", "ReplaceAll") {
+				return
+			}
+			if constOrEmpty(call.Call.Args[1]) != "-" {
+				return
+			}
+			for _, a := range pa.Of(call.Call.Args[0]).fields() {
+				if a != "Info."+comp && strings.HasPrefix(a, "Info.") {
+					bad = fmt.Sprintf("the replacement at %s also rewrites %s", c.instrPos(call), a)
+				}
+			}
+		})
+		if bad != "" {
+			return false, bad
+		}
+	}
+	return true, "only the prerelease is rewritten"
+}
+
 func checkC14(c *Ctx, r *Report) {
 	r.Rules = []string{"D8 version schema decision table", "D8 semver split: rewrite only on successful parse, explicit prerelease/metadata win", "F13 separator literals in templates, file names and formatters", "F13 prerelease sanitised for rpm and archlinux", "epoch syntax"}
 	r.Explanation = "Decision-table and literal-provenance rules. (D8) nfpm.WithDefaults is abstractly evaluated for version_schema in {none, semver, empty, anything else}: the semver split is dead for 'none' and live otherwise; inside the split the version is rewritten only on the success edge of the parse, from major/minor/patch alone, and prerelease and metadata are filled from the parsed version only behind an emptiness test of the same field (explicit values win; nothing is duplicated because the rewritten version carries no prerelease/metadata). (F13) in the deb and ipk control templates, in their conventional file names and in rpm's version formatter the literal immediately before the prerelease is '~' — the only character both dpkg and rpmvercmp order before the end of the string, so this literal is what makes every prerelease build sort before its release — metadata is introduced by '+', release by '-', the epoch is followed by ':' (deb/ipk) or goes to the numeric rpm epoch with its parse error returned; rpm and archlinux replace '-' by '_' in the prerelease. Concrete version comparison is not executed."
@@ -79,9 +106,21 @@ func checkC14(c *Ctx, r *Report) {
 		})
 	}
 	if split == nil {
-		r.Unresolved("semver split", "no function reachable from WithDefaults parses a semantic version")
+		// any other parser from the semver package (StrictNewVersion) or none
+		var other []string
+		for _, fn := range sortedFuncs(c, c.Reach(wd)) {
+			forEachInstr(fn, func(in ssa.Instruction) {
+				if call, ok := in.(*ssa.Call); ok {
+					if o := calleeObj(call); o != nil && o.Pkg() != nil && o.Pkg().Path() == semverPath {
+						other = append(other, o.Name())
+					}
+				}
+			})
+		}
+		r.Fail("D8-parser", "version parsed with the lenient semver parser", c.pos(wd.Pos()), fmt.Sprintf("the split must use semver.NewVersion, which accepts a 'v' prefix and fewer than three numeric parts; semver functions called instead: %v", other))
 		return
 	}
+	r.Pass("D8-parser", "version parsed with the lenient semver parser", c.pos(split.Pos()), "semver.NewVersion")
 	for _, schema := range []string{"none", "semver", "", "calver"} {
 		ev := newEvaluator(c)
 		info := newAObj("info")
@@ -205,6 +244,8 @@ func checkC14(c *Ctx, r *Report) {
 			r.Check(got == want, "F13", "rpm version: separator before "+comp, c.pos(pk.Package.Pos()), fmt.Sprintf("separators {%s}, expected %q", got, want))
 		}
 		r.Check(sanitisedIn(c, pa, fns, "Prerelease"), "F13", "rpm version: '-' in the prerelease replaced by '_'", c.pos(pk.Package.Pos()), "rpm versions may not contain '-'")
+		okOnly, whyOnly := sanitisedOnly(c, pa, fns, "Prerelease")
+		r.Check(okOnly, "F13", "rpm version: only the prerelease is rewritten", c.pos(pk.Package.Pos()), whyOnly+" (version and metadata are used verbatim, e.g. under version_schema none)")
 		// epoch goes to the numeric tag (D9 in C06 decides the parse error)
 		okEpoch := false
 		for _, fn := range fns {
@@ -226,6 +267,8 @@ func checkC14(c *Ctx, r *Report) {
 	if pk := c.PackagerByFormat("archlinux"); pk != nil {
 		fns := sortedFuncs(c, c.Reach(pk.Package, pk.FileName))
 		r.Check(sanitisedIn(c, pa, fns, "Prerelease"), "F13", "archlinux version: '-' in the prerelease replaced by '_'", c.pos(pk.Package.Pos()), "pkgver may not contain '-'")
+		okOnly, whyOnly := sanitisedOnly(c, pa, fns, "Prerelease")
+		r.Check(okOnly, "F13", "archlinux version: only the prerelease is rewritten", c.pos(pk.Package.Pos()), whyOnly)
 	}
 	var keys []string
 	for k := range expectTemplate {
